@@ -33,11 +33,12 @@ import paho.mqtt.client as mqtt
 from paho.mqtt.enums import CallbackAPIVersion
 from vlib import impl, model
 
-RULE = ("corpus replays first (original F-C06a witness); then EXHAUSTIVE: two packets of <= 6 bytes (a 5-byte "
+RULE = ("corpus replays first (original F-C06a witness, F-C06b witness); then EXHAUSTIVE: two packets of <= 6 bytes (a 5-byte "
         "QoS 0 PUBLISH with a 6-byte QoS 0 PUBLISH, a 4-byte PUBACK or the 2-byte DISCONNECT), every split of each "
         "packet into accepted chunks, every placement of up to S stalls (send() returning 0 / BlockingIOError; "
         "S=1 quick, 2 thorough) and of one OSError, in external-loop and in direct-write mode, raw socket; the "
-        "same scope over the WebSocket wrapper with chunked frames (quick: sampled); then random op sequences "
+        "over the WebSocket wrapper one packet with every split of its frame (thorough: two packets); a 6-byte QoS 0 PUBLISH "
+        "issued from on_socket_open, i.e. before CONNECT is queued, every split / stall, both modes, raw and WebSocket; then random op sequences "
         "(publish QoS 0/1/2 of 0..several kB - thorough: across the 126 and 65536 frame length classes -, "
         "subscribe, inbound PUBLISH QoS 1/2 / PUBREL / PUBREC / PUBACK that trigger replies, publish from inside "
         "on_message, on_publish raising, disconnect, reconnect, loop_write) with a send plan drawn per operation. "
@@ -126,32 +127,37 @@ class _OsProxy:
 
 
 class LogDeque(collections.deque):
-    """_out_packet with append()/clear() recorded (the packets 'as they are queued')."""
+    """_out_packet with the arrival of NEW packets recorded (the packets 'as they are queued'): append() at the
+    tail, and appendleft() of a packet never seen before (CONNECT, which _packet_queue puts at the head)."""
     rec = None
     client = None
+    run = None
 
     def __init__(self, *a):
         super().__init__(*a)
         self.known = []
 
-    def append(self, pkt):
-        if pkt.get("pos", 0) != 0 or any(pkt is q for q in self.known):
-            super().append(pkt)         # not a new packet (an implementation that re-queues at the right)
-            return
+    def _new(self, pkt, head):
         self.known.append(pkt)
         c = self.client
         in_cb = not c._in_callback_mutex.acquire(False)
         if not in_cb:
             c._in_callback_mutex.release()
         sock = c._sock
-        raw = sock._socket if isinstance(sock, mqtt._WebsocketWrapper) else sock
-        self.rec.add("append", pkt, in_cb, raw.calls if raw is not None else 0)
-        super().append(pkt)
+        raw = self.run.raw()            # the raw socket of the current connection, also after it was closed
+        mid_packet = bool(head and len(self) and (self[0]["pos"] > 0 or
+                                                  (isinstance(sock, mqtt._WebsocketWrapper) and len(sock._sendbuffer) > 0)))
+        self.rec.add("append", pkt, in_cb, raw.calls if raw is not None else 0, head, len(self), mid_packet)
 
-    def clear(self):
-        self.known = []
-        self.rec.add("clear")
-        super().clear()
+    def append(self, pkt):
+        if pkt.get("pos", 0) == 0 and not any(pkt is q for q in self.known):
+            self._new(pkt, False)
+        super().append(pkt)             # else: not a new packet (an implementation that re-queues at the right)
+
+    def appendleft(self, pkt):
+        if pkt.get("pos", 0) == 0 and not any(pkt is q for q in self.known):
+            self._new(pkt, True)
+        super().appendleft(pkt)
 
 
 class VClient(mqtt.Client):
@@ -201,7 +207,7 @@ class Run:
         self.c = c
         c.suppress_exceptions = bool(case.get("suppress"))
         q = LogDeque()
-        q.rec, q.client = rec, c
+        q.rec, q.client, q.run = rec, c, self
         c._out_packet = q
         c._create_socket = self._create
         if case.get("onpub", True):
@@ -209,6 +215,9 @@ class Run:
         c.on_disconnect = lambda *a: rec.add("cbdisc")
         c.on_socket_close = lambda *a: rec.add("sockclose")
         c.on_message = self._on_message
+        self.open_pub = list(case.get("open_pub") or [])
+        if self.open_pub:
+            c.on_socket_open = self._on_socket_open
         if case.get("ext"):
             c.on_socket_register_write = lambda *a: None
         c.max_inflight_messages_set(case.get("inflight", 20))
@@ -227,6 +236,7 @@ class Run:
         s = PlanSock(self.rec)
         s.plan = collections.deque(self.pending_plan)
         s.budget = len(s.plan) + 500
+        self.c._out_packet.known = []
         self.socks.append(s)
         self.rec.add("newsock", s)
         if self.ws:
@@ -240,6 +250,11 @@ class Run:
             client.publish("n", b"n" * size, 0)
         if mid in self.raise_mids:
             raise CbRaise(mid)
+
+    def _on_socket_open(self, client, ud, sock):
+        size = self.open_pub.pop(0) if self.open_pub else None
+        if size is not None:
+            self.infos.append(client.publish("o", b"o" * size, 0))
 
     def _on_message(self, client, ud, msg):
         if self.cb_pub:
@@ -384,6 +399,8 @@ def _kind(pkt):
         return 0
     if cmd == 0xE0:
         return 1
+    if cmd == 0x10:
+        return 3
     return 2
 
 
@@ -399,8 +416,10 @@ class Conn:
         self.mobs = []          # per model op: {"events": [...], "state": {...}|None, "rc": ..}
         self.run_wire = bytearray()
         self.setpub = collections.Counter()
-        self.by_info = {}
-        self.by_dict = {}
+        self.by_info = {}       # id(MQTTMessageInfo) -> packet entry (QoS 0 publishes)
+        self.by_dict = {}       # id(packet dict) -> packet entry
+        self.nseq = 0
+        self.connect_mid_packet = False
         self.skip_model = False
         self.plan, self.plan_base, self.plan_sticky = [], 0, False
 
@@ -418,7 +437,10 @@ def execute(case):
     r.infos = []
     _cur_rec[0] = r.rec
 
-    def bad(sig, what, i):
+    def bad(sig, what, i, conn=None):
+        cc = conn if conn is not None else cur
+        if cc is not None and cc.connect_mid_packet and sig in ("stream", "early-publish", "not-published"):
+            sig, what = "connect-mid-packet", "CONNECT was put at the head of the queue in front of a partly written packet; " + what
         viol.append({"case": case, "what": f"op #{i} {case['ops'][i]['op']}: {what}", "signature": sig})
 
     def accepted_of(conn, wire):
@@ -441,13 +463,10 @@ def execute(case):
                 break
             evs = r.rec.ev[mark:]
             # --- connection boundary
-            if any(e[0] == "clear" for e in evs):
-                ci = max(j for j, e in enumerate(evs) if e[0] == "clear")
-                evs = evs[ci + 1:]
-                ns = [e for e in evs if e[0] == "newsock"]
-                if not ns:
-                    cur = None
-                    continue
+            if any(e[0] == "newsock" for e in evs):
+                ci = max(j for j, e in enumerate(evs) if e[0] == "newsock")
+                ns = [evs[ci]]
+                evs = evs[ci + 1:]          # what happened before belongs to the connection that reconnect() closed
                 cur = Conn(ns[-1][1], used0)
                 conns.append(cur)
                 calls0 = 0
@@ -467,16 +486,20 @@ def execute(case):
             for e in evs:
                 if e[0] == "append":
                     d = e[1]
-                    idx = len(conn.pk)
-                    ent = {"d": d, "b": bytes(d["packet"]), "kind": _kind(d), "in_cb": e[2],
+                    ent = {"d": d, "b": bytes(d["packet"]), "kind": _kind(d), "in_cb": e[2], "seq": conn.nseq,
                            "raise": d["mid"] in r.raise_mids and _kind(d) == 0}
-                    conn.pk.append(ent)
-                    conn.by_dict[id(d)] = idx
+                    conn.nseq += 1
+                    if e[4]:                        # put at the head: queue order = before everything still queued
+                        conn.pk.insert(len(conn.pk) - e[5], ent)
+                        conn.connect_mid_packet = conn.connect_mid_packet or e[6]
+                    else:
+                        conn.pk.append(ent)
+                    conn.by_dict[id(d)] = ent
                     if d.get("info") is not None and ent["kind"] == 0:
-                        conn.by_info[id(d["info"])] = idx
+                        conn.by_info[id(d["info"])] = ent
                     if depth > 0:
                         conn.skip_model = True      # queued from on_publish while _packet_write runs: oracle only
-                    cur_seg = {"enq": idx, "events": [], "calls": e[3]}
+                    cur_seg = {"enq": ent, "events": [], "calls": e[3]}
                     segs.append(cur_seg)
                     absorb = (not case.get("ext")) and not e[2]
                 elif e[0] == "lw":
@@ -501,7 +524,7 @@ def execute(case):
                 if sg["enq"] is None:
                     conn.mops.append(("write", pl))
                 else:
-                    conn.mops.append(("enq", sg["enq"], conn.pk[sg["enq"]]["in_cb"], pl))
+                    conn.mops.append(("enq", sg["enq"], sg["enq"]["in_cb"], pl))
                 conn.mobs.append({"events": sg["events"], "state": None, "rc": None, "op": i, "kind": op["op"]})
             # --- oracle over the events of this op, in order
             for e in (e for e in evs if e[0] in REL):
@@ -514,11 +537,12 @@ def execute(case):
                             continue            # on_publish of a QoS 1/2 message (PUBACK/PUBCOMP), not the writer's
                         idx = cand[-1]
                     else:
-                        idx = conn.by_info.get(id(e[1]))
-                        if idx is None:
+                        ent = conn.by_info.get(id(e[1]))
+                        if ent is None:
                             continue
-                        conn.setpub[idx] += 1
-                        if conn.setpub[idx] > 1:
+                        idx = next(k for k, p in enumerate(conn.pk) if p is ent)
+                        conn.setpub[ent["seq"]] += 1
+                        if conn.setpub[ent["seq"]] > 1:
                             bad("dup-publish", f"packet {idx} reported published twice", i)
                     acc, complete, _ = accepted_of(conn, conn.run_wire)
                     want = b"".join(p["b"] for p in conn.pk[:idx + 1])
@@ -548,7 +572,7 @@ def execute(case):
             # --- state for the model comparison
             if conn.mobs and segs:
                 st = {"sock": c._sock is not None, "regw": bool(c._registered_write), "want": bool(c.want_write()),
-                      "q": [(conn.by_dict.get(id(p), -1), p["pos"], p["to_process"]) for p in c._out_packet]}
+                      "q": [(conn.by_dict[id(p)]["seq"] if id(p) in conn.by_dict else -1, p["pos"], p["to_process"]) for p in c._out_packet]}
                 if ws and c._sock is not None:
                     st["ws"] = (len(c._sock._sendbuffer), c._sock._requested_size, proxy.used - conn.key_base)
                 conn.mobs[-1]["state"] = st
@@ -564,16 +588,16 @@ def execute(case):
                 if p["kind"] != 0 or info is None:
                     continue
                 done = off <= len(acc)
-                n = conn.setpub[idx]
+                n = conn.setpub[p["seq"]]
                 swallowed = p["raise"] and not case.get("suppress") and case.get("onpub", True)
                 if done and n != 1 and not swallowed:
-                    bad("not-published", f"QoS 0 packet {idx} completely accepted but _set_as_published ran {n} times", len(case["ops"]) - 1)
+                    bad("not-published", f"QoS 0 packet {idx} completely accepted but _set_as_published ran {n} times", len(case["ops"]) - 1, conn)
                 try:
                     isp = info.is_published()
                 except (RuntimeError, ValueError):
                     isp = None
                 if isp is True and not done:
-                    bad("early-publish", f"is_published() is True for packet {idx} but only {len(acc)} bytes accepted (needs {off})", len(case["ops"]) - 1)
+                    bad("early-publish", f"is_published() is True for packet {idx} but only {len(acc)} bytes accepted (needs {off})", len(case["ops"]) - 1, conn)
         nontriv = any(s.nontrivial for s in r.socks)
         return conns, viol, nontriv, notes
     finally:
@@ -593,7 +617,7 @@ def model_args(case, conn):
             a.extend(k)
     for m in conn.mops:
         if m[0] == "enq":
-            p = conn.pk[m[1]]
+            p = m[1]
             a += [0, 1 if m[2] else 0, p["kind"], 1 if p["raise"] else 0, len(p["b"])] + list(p["b"]) + [len(m[3])] + list(m[3])
         else:
             a += [1, len(m[1])] + list(m[1])
@@ -635,12 +659,12 @@ def _norm_events(conn, evs):
     out = []
     for e in evs:
         if e[0] == "cbpub":
-            cand = [k for k, p in enumerate(conn.pk) if p["kind"] == 0 and p["d"]["mid"] == e[1]]
+            cand = [p["seq"] for p in conn.pk if p["kind"] == 0 and p["d"]["mid"] == e[1]]
             if cand:
-                out.append(("cbpub", cand[-1]))
+                out.append(("cbpub", max(cand)))
         elif e[0] == "setpub":
             if not e[2] and id(e[1]) in conn.by_info:
-                out.append(("setpub", conn.by_info[id(e[1])]))
+                out.append(("setpub", conn.by_info[id(e[1])]["seq"]))
         else:
             out.append(tuple(e))
     return out
@@ -669,7 +693,7 @@ def compare(case, conn, mops):
         ie = _norm_events(conn, o["events"])
         me = m["events"]
         if ie != me:
-            if not (o["kind"] in ("rx", "connack") and ie[:len(me)] == me and all(e == ("cbdisc",) for e in ie[len(me):])):
+            if True:
                 def short(es):
                     return [(e[0], len(e[1])) if e[0] == "wire" else e for e in es]
                 return {"what": f"events differ at model op {k} (case op #{o['op']} {o['kind']})", "impl": short(ie), "model": short(me)}
@@ -766,6 +790,8 @@ def gen_random(rng, mode, big=False, nops=None):
             "inflight": rng.choice([1, 2, 20])}
     if ws:
         case["keys"] = [[rng.randrange(256) for _ in range(4)] for _ in range(rng.choice([1, 3, 8]))]
+    if rng.random() < 0.08:
+        case["open_pub"] = [rng.choice([None, 0, 1, 5, 200]) for _ in range(4)]
     ops = [{"op": "connect", "plan": gen_plan(rng, 20, ws)}]
     if rng.random() < 0.5:
         ops.append({"op": "write", "plan": gen_plan(rng, 20, ws)})
@@ -877,6 +903,20 @@ def gen_exhaustive_raw(stalls):
             nw = sum(1 for k in sched if k <= 0) + 2
             for ext in (True, False):
                 yield small_case("raw", ext, second, sched, nw)
+
+
+def gen_exhaustive_early(stalls):
+    """a 6-byte QoS 0 PUBLISH issued from on_socket_open (before CONNECT is queued): every split, stalls, OSError;
+    external-loop mode (queued only, CONNECT goes to the head) and direct-write mode (written at once)"""
+    for sched in schedules([6], stalls, True):
+        nw = sum(1 for k in sched if k <= 0) + 2
+        for mode in ("raw", "ws"):
+            for ext in (True, False):
+                case = {"mode": mode, "ext": ext, "onpub": True, "suppress": False, "open_pub": [1],
+                        "ops": [{"op": "connect", "plan": sched, "keep": True}] + [{"op": "write"} for _ in range(nw)] + [{"op": "connack"}]}
+                if mode == "ws":
+                    case["keys"] = [[9, 8, 7, 6], [1, 2, 3, 4]]
+                yield case
 
 
 def frame_len(n):
@@ -996,6 +1036,7 @@ def run(ctx, out):
         c0 = out.cases
         run_many(pool, gen_exhaustive_raw(stalls), out, "exhaustive_raw", 1500)
         run_many(pool, gen_exhaustive_ws(not ctx.quick), out, "exhaustive_ws", 1500)
+        run_many(pool, gen_exhaustive_early(stalls), out, "exhaustive_early", 500)
         out.exhaustive = True
         out.notes.append(f"exhaustive scope: raw socket, two packets <= 6 bytes (5+6, 5+4, 5+2), every split of each packet, <= {stalls} "
                          f"stalls (zero / would-block) anywhere, one OSError anywhere, external-loop and direct-write mode; websocket: "
